@@ -12,7 +12,7 @@ RULE = ("explicit-state BFS over event histories of the abstract-module alphabet
         "expected list")
 
 MAXNEST = {"quick": 2, "thorough": 3}
-DEPTH = {"quick": 6, "thorough": 8}
+DEPTH = {"quick": 5, "thorough": 8}
 SWEEP = {"quick": 2, "thorough": 3}
 
 
